@@ -802,7 +802,7 @@ def setup_tag( key, val ):
             log.normal(     "Set Tag %-14s%-10s: %-24s Instance Replaced w/: %s", key, "@%s/%s/%s" % res, instance,
                         val['attribute'] if log.isEnabledFor( logging.INFO ) else misc.reprlib.repr( val['attribute'] ))
             instance.attribute[str(att)] \
-                                = attribute
+                                = val['attribute']
 
 
 def setup( **kwds ):
